@@ -298,6 +298,12 @@ def StOp.valsOk (nb : Bool) : StOp → Prop
   | .mutOrDefault _ _ w => ∀ x, w = some x → nb = true → x = 0
   | _ => True
 
+/-- Kinds that are not null-based accept every value. -/
+theorem StOp.valsOk_false (op : StOp) : op.valsOk false := by
+  cases op with
+  | entry e eop => cases eop <;> simp [StOp.valsOk]
+  | _ => simp [StOp.valsOk]
+
 namespace Masked
 
 def ofOut {α} (ms : Masked) (o : Out (SRes α)) (f : α → StRes) : Masked × StRes :=
